@@ -25,7 +25,7 @@ enum Fault
 };
 const char* fname[] = {"ok", "ok+Connection:close(kept open)", "ok+surplus bytes(kept open)", "ok close-delimited", "RST at accept", "RST after k request bytes", "FIN after k request bytes",
                        "RST after the request", "FIN after the request", "response truncated then FIN", "response truncated then RST", "malformed response", "silence", "partial response then silence"};
-struct Exchange { int fault = A_OK; size_t pos = 0; };
+struct Exchange { int fault = A_OK; size_t pos = 0; int permille = -1; /* >= 0: position as a share of the request's length instead */ };
 struct Logical
 {
   std::string method;
@@ -80,7 +80,7 @@ extern "C" void harness_run()
         Logical L;
         L.method = methods[sim::draw(6)];
         L.budget = (int)sim::draw(4);
-        if (L.method == "POST") L.body = hgen::body_bytes(sim::draw(1u << 20), 1 + sim::draw(60), true);
+        if (L.method == "POST") L.body = hgen::body_bytes(sim::draw(1u << 20), sim::draw(4) == 3 ? 20000 + sim::draw(180000) : 1 + sim::draw(60), true); // some larger than any send buffer
         P->reqs.push_back(L);
       }
       size_t nex = P->reqs.size() * 4 + 2;
@@ -89,6 +89,7 @@ extern "C" void harness_run()
         Exchange x;
         x.fault = sim::draw(3) == 0 ? A_OK : (int)sim::draw(A_NFAULTS);
         x.pos = sim::draw(reqLenGuess + 60);
+        if (sim::draw(3) == 0) x.permille = (int)sim::draw(1001);
         P->plan.push_back(x);
       }
     }
@@ -135,6 +136,9 @@ extern "C" void harness_run()
   nc.jitter_ns = sim::draw(2) ? nc.latency_ns / 2 : 0;
   static const unsigned sw[] = {0, 0, 300};
   nc.short_write_permille = sw[sim::draw(3)];
+  static const size_t sbufs[] = {65536, 65536, 4096, 1024};
+  nc.sndbuf = sbufs[sim::draw(4)];
+  nc.rcvbuf = sbufs[sim::draw(4)];
   hx::SchedOpts so;
   so.stall_max_ns = 2000000;
   sim::Config cfg = hx::draw_sched(so);
@@ -233,6 +237,12 @@ extern "C" void harness_run()
           e++;
           P->exchangesRun++;
           if (x.fault == A_RST_AT_ACCEPT) x.fault = A_RST_AFTER_K, x.pos = 1; // on a kept-alive connection: as soon as the request starts to arrive
+          if (x.permille >= 0 && (x.fault == A_RST_AFTER_K || x.fault == A_FIN_AFTER_K))
+          {
+            int cur = P->cur.load();
+            size_t len = reqLenGuess + (cur >= 0 ? P->reqs[(size_t)cur].body.size() : 0);
+            x.pos = len * (size_t)x.permille / 1000;
+          }
           std::string in;
           bool keep = false;
           std::string resp = valid_response(false);
